@@ -43,6 +43,13 @@ pub struct Cfg {
     /// outlive a change of the capability)
     #[serde(default)]
     pub warmed_up: bool,
+    /// authenticator-API configurations: the request goes through the sealed `Ctap2Api` trait instead of the direct method
+    #[serde(default)]
+    pub via_trait: bool,
+    /// client assertions: the request carries an allow list of ten descriptors (one of them names a held credential
+    /// when matching credentials are present)
+    #[serde(default)]
+    pub long_allow_list: bool,
 }
 
 fn late_credential() -> Passkey {
@@ -123,7 +130,7 @@ pub fn execute(c: &Cfg, matching: bool) -> Result<Outcome, String> {
                 Err(e) => Err(format!("{e:?}")),
             }
         } else {
-            let r = std::panic::catch_unwind(std::panic::AssertUnwindSafe(|| block_on(client.authenticate(site.origin(), cer::request_options(site.rp, b"chal", None, cer::uv_req(req), None), DefaultClientData))))
+            let r = std::panic::catch_unwind(std::panic::AssertUnwindSafe(|| block_on(client.authenticate(site.origin(), cer::request_options(site.rp, b"chal", c.long_allow_list.then(|| (0..10u8).map(|k| if k == 5 { cer::descriptor(b"matching-cred-0001") } else { cer::descriptor(format!("c04-unknown-credential-{k}").as_bytes()) }).collect()), cer::uv_req(req), None), DefaultClientData))))
                 .map_err(|_| format!("authenticate panicked: {}", crate::last_panic()))?;
             match r {
                 Ok(a) => {
@@ -162,7 +169,7 @@ pub fn execute(c: &Cfg, matching: bool) -> Result<Outcome, String> {
                 // whether such an encoding decodes at all is C13's business; nothing to judge about consent then
                 Err(e) => return Ok(Outcome { result: Err(format!("not-decodable: {e}")), store_before: store_before.clone(), store_after: store.creds().iter().map(snap).collect(), uv_calls: vec![] }),
             };
-            let r = std::panic::catch_unwind(std::panic::AssertUnwindSafe(|| block_on(auth.make_credential(req)))).map_err(|_| format!("make_credential panicked: {}", crate::last_panic()))?;
+            let r = std::panic::catch_unwind(std::panic::AssertUnwindSafe(|| if c.via_trait { block_on(passkey_authenticator::Ctap2Api::make_credential(&mut auth, req)) } else { block_on(auth.make_credential(req)) })).map_err(|_| format!("make_credential panicked: {}", crate::last_panic()))?;
             match r {
                 Ok(resp) => {
                     let bytes = resp.auth_data.to_vec();
@@ -185,7 +192,7 @@ pub fn execute(c: &Cfg, matching: bool) -> Result<Outcome, String> {
                 Ok(r) => r,
                 Err(e) => return Ok(Outcome { result: Err(format!("not-decodable: {e}")), store_before: store_before.clone(), store_after: store.creds().iter().map(snap).collect(), uv_calls: vec![] }),
             };
-            let r = std::panic::catch_unwind(std::panic::AssertUnwindSafe(|| block_on(auth.get_assertion(req)))).map_err(|_| format!("get_assertion panicked: {}", crate::last_panic()))?;
+            let r = std::panic::catch_unwind(std::panic::AssertUnwindSafe(|| if c.via_trait { block_on(passkey_authenticator::Ctap2Api::get_assertion(&mut auth, req)) } else { block_on(auth.get_assertion(req)) })).map_err(|_| format!("get_assertion panicked: {}", crate::last_panic()))?;
             match r {
                 Ok(resp) => {
                     let bytes = resp.auth_data.to_vec();
@@ -298,13 +305,28 @@ pub fn all_configs() -> Vec<Cfg> {
                                 for &wire in wires {
                                     if create {
                                         for exclude_list in [false, true] {
-                                            v.push(Cfg { create, rk: bits & 1 != 0, up: bits & 2 != 0, uv: bits & 4 != 0, script: script.clone(), pin_auth, matching, exclude_list, client_uv_req: None, wire, store_changes_during_prompt: false, warmed_up: false });
+                                            v.push(Cfg { create, rk: bits & 1 != 0, up: bits & 2 != 0, uv: bits & 4 != 0, script: script.clone(), pin_auth, matching, exclude_list, client_uv_req: None, wire, store_changes_during_prompt: false, warmed_up: false, via_trait: false, long_allow_list: false });
                                         }
                                     } else {
-                                        v.push(Cfg { create, rk: bits & 1 != 0, up: bits & 2 != 0, uv: bits & 4 != 0, script: script.clone(), pin_auth, matching, exclude_list: false, client_uv_req: None, wire, store_changes_during_prompt: false, warmed_up: false });
+                                        v.push(Cfg { create, rk: bits & 1 != 0, up: bits & 2 != 0, uv: bits & 4 != 0, script: script.clone(), pin_auth, matching, exclude_list: false, client_uv_req: None, wire, store_changes_during_prompt: false, warmed_up: false, via_trait: false, long_allow_list: false });
                                     }
                                 }
                             }
+                        }
+                    }
+                }
+            }
+        }
+    }
+    // the same requests through the sealed trait entry point
+    for create in [true, false] {
+        for bits in 0..8u8 {
+            for ve in [None, Some(false), Some(true)] {
+                for pe in [false, true] {
+                    for o in &outcomes {
+                        for matching in [false, true] {
+                            let script = UvScript { presence_enabled: pe, verification_enabled: ve, outcome: *o, yields: 0 };
+                            v.push(Cfg { create, rk: bits & 1 != 0, up: bits & 2 != 0, uv: bits & 4 != 0, script, pin_auth: false, matching, exclude_list: create && matching, client_uv_req: None, wire: 0, store_changes_during_prompt: false, warmed_up: false, via_trait: true, long_allow_list: false });
                         }
                     }
                 }
@@ -319,7 +341,7 @@ pub fn all_configs() -> Vec<Cfg> {
                     for pin_auth in [false, true] {
                         for matching in [false, true] {
                             let script = UvScript { presence_enabled: pe, verification_enabled: ve, outcome: *o, yields: 0 };
-                            v.push(Cfg { create: false, rk: bits & 1 != 0, up: bits & 2 != 0, uv: bits & 4 != 0, script, pin_auth, matching, exclude_list: false, client_uv_req: None, wire: 0, store_changes_during_prompt: true, warmed_up: false });
+                            v.push(Cfg { create: false, rk: bits & 1 != 0, up: bits & 2 != 0, uv: bits & 4 != 0, script, pin_auth, matching, exclude_list: false, client_uv_req: None, wire: 0, store_changes_during_prompt: true, warmed_up: false, via_trait: false, long_allow_list: false });
                         }
                     }
                 }
@@ -335,7 +357,7 @@ pub fn all_configs() -> Vec<Cfg> {
                     for o in &outcomes {
                         for matching in [false, true] {
                             let script = UvScript { presence_enabled: pe, verification_enabled: ve, outcome: *o, yields: 0 };
-                            v.push(Cfg { create, rk: bits & 1 != 0, up: bits & 2 != 0, uv: true, script, pin_auth: false, matching, exclude_list: false, client_uv_req: None, wire: 0, store_changes_during_prompt: false, warmed_up: true });
+                            v.push(Cfg { create, rk: bits & 1 != 0, up: bits & 2 != 0, uv: true, script, pin_auth: false, matching, exclude_list: false, client_uv_req: None, wire: 0, store_changes_during_prompt: false, warmed_up: true, via_trait: false, long_allow_list: false });
                         }
                     }
                 }
@@ -350,7 +372,10 @@ pub fn all_configs() -> Vec<Cfg> {
                     for matching in [false, true] {
                         for rk in [false, true] {
                             let script = UvScript { presence_enabled: true, verification_enabled: ve, outcome: *o, yields: 0 };
-                            v.push(Cfg { create, rk, up: true, uv: req != 2, script, pin_auth: false, matching, exclude_list: create && matching, client_uv_req: Some(req), wire: 0, store_changes_during_prompt: false, warmed_up: false });
+                            if !create && !rk {
+                                v.push(Cfg { create, rk, up: true, uv: req != 2, script: script.clone(), pin_auth: false, matching, exclude_list: false, client_uv_req: Some(req), wire: 0, store_changes_during_prompt: false, warmed_up: false, via_trait: false, long_allow_list: true });
+                            }
+                            v.push(Cfg { create, rk, up: true, uv: req != 2, script, pin_auth: false, matching, exclude_list: create && matching, client_uv_req: Some(req), wire: 0, store_changes_during_prompt: false, warmed_up: false, via_trait: false, long_allow_list: false });
                         }
                     }
                 }
@@ -361,7 +386,7 @@ pub fn all_configs() -> Vec<Cfg> {
 }
 
 pub fn run(ctx: &mut Ctx) {
-    ctx.rule = "complete product: operation (create/assert) x requested rk,up,uv (8) x verification capability (none, unconfigured, configured) x presence capability (2) x user-validation outcome (4 presence/verification results + 3 error codes) x pin-auth (2) x request handed over as a value / through its CBOR encoding with default-valued options omitted (and the emptied options map omitted) x store content (matching credentials present/absent; for assertions also with a further credential of the RP put in front of the others while the user is being asked; create: exclude list absent/naming a held credential), each on a fresh authenticator (and, for verification requests without the capability, also on one that served a verified ceremony while the capability was still configured) with call-logging doubles; plus the same through Client (UV requirement x capability x outcome x content x rk); plus assertions on a store whose items convert into passkeys fallibly (1-3 items x convertible or not x allow list shapes): the item shown must be the credential that signs. Every configuration is distinct and non-trivial.".into();
+    ctx.rule = "complete product: operation (create/assert) x requested rk,up,uv (8) x verification capability (none, unconfigured, configured) x presence capability (2) x user-validation outcome (4 presence/verification results + 3 error codes) x pin-auth (2) x request handed over as a value / through its CBOR encoding with default-valued options omitted (and the emptied options map omitted) x store content (matching credentials present/absent; for assertions also with a further credential of the RP put in front of the others while the user is being asked; create: exclude list absent/naming a held credential), each on a fresh authenticator (and, for verification requests without the capability, also on one that served a verified ceremony while the capability was still configured) with call-logging doubles; plus the authenticator-API product through the sealed Ctap2Api trait; plus the same through Client (UV requirement x capability x outcome x content x rk; assertions also with an allow list of ten descriptors); plus assertions on a store whose items convert into passkeys fallibly (1-3 items x convertible or not x allow list shapes): the item shown must be the credential that signs. Every configuration is distinct and non-trivial.".into();
     ctx.exhaustive = Some(true);
     ctx.assumptions = vec![
         "'consent is missing' = verification requested without configured capability, or create with up=false, or the validation step returned an error, or it did not report a presence/verification that was requested".into(),
